@@ -1,4 +1,5 @@
 import GrolProofs.Props.C02
+import GrolProofs.PrintFrame
 /-
 C03 — formatting is a deterministic fixpoint.
 
@@ -10,10 +11,11 @@ C03 — formatting is a deterministic fixpoint.
     (`Parser.parseProgram`), and the printed bytes are a function of the tree and the two mode flags
     (`Printer.printProgram`); that the Go code behaves like this model whatever was parsed before is
     what the suite checks (every 40th case is formatted again after `token.Init()`).
-(3) normal-mode output ends with exactly one newline: evaluated by the driver on every case
-    (`FormatSuite.endsWithOneNewline`); not proved (it needs a frame lemma — indentation level and
-    compact flag are preserved by every PrettyPrint method — plus the lexer fact that no token literal
-    ends in a newline).
+(3) normal-mode output ends with a newline: PROVED for every tree (`ends_with_newline`, from the frame
+    lemma `printNode_frame`: every PrettyPrint method preserves indentation level and compact flag).
+    "Exactly one" (the byte before is not a newline) is evaluated by the driver on every case
+    (`FormatSuite.endsWithOneNewline`) but not proved: it needs the lexer fact that no token literal
+    ends in a newline.
 -/
 namespace Grol.C03
 open Grol Grol.Wire Grol.Parser Grol.Printer Grol.Generated
@@ -34,6 +36,12 @@ def Statement (lex : Bytes → TokStream) (tbl : Nat → Bool) : Prop :=
   ∀ src, ∃ fuel, (∀ compact, IdempotentAt lex tbl fuel src compact) ∧
     ∀ prog, C02.valid (parseProgram (lex src) fuel) = some prog →
       ∀ out, printProgram tbl prog false false = .ok out → oneNewline out = true
+
+/-- (3), first half: for EVERY tree and both all-parens settings, successful normal-mode printing of a
+program ends with a newline -/
+theorem ends_with_newline (tbl : Nat → Bool) (prog : NList) (allParens : Bool) (out : Bytes)
+    (h : printProgram tbl prog false allParens = .ok out) : out.getLast? = some 10 :=
+  printProgram_ends_with_newline tbl prog allParens out h
 
 /-- history independence of the model, in the only form it can take there: parsing and printing
 are functions (no state survives between two calls) -/
